@@ -87,3 +87,125 @@ theorem flatten_length_const (n : Nat) (px : List (List Nat)) (h : ∀ p ∈ px,
     omega
 
 end OxiVerif.C24
+
+/-! ### the chunk walk on a well-formed chunk -/
+namespace OxiVerif.C24
+open OxiVerif.Spec.C24Png (chunk be32 tagOf crc32)
+
+theorem be32At_cons (n : Nat) (hn : n < 4294967296) (xs : List Nat) :
+    be32At (n / 16777216 % 256 :: n / 65536 % 256 :: n / 256 % 256 :: n % 256 :: xs) 0 = n := by
+  simp [be32At]
+  omega
+
+/-- one iteration of the `decode` loop on `length ‖ tag ‖ data ‖ crc ‖ rest` -/
+theorem walk_step (fuel t0 t1 t2 t3 c0 c1 c2 c3 : Nat) (data rest : List Nat) (st : Decoder)
+    (hlen : data.length < 4294967296) :
+    walk (fuel + 1)
+      (data.length / 16777216 % 256 :: data.length / 65536 % 256 :: data.length / 256 % 256 ::
+        data.length % 256 :: t0 :: t1 :: t2 :: t3 :: (data ++ c0 :: c1 :: c2 :: c3 :: rest)) st =
+      (if [t0, t1, t2, t3] = tagIHDR then
+          match processIhdr st data with
+          | .ok st' => walk fuel rest st'
+          | .err e => .err e
+          | .panic => .panic
+        else if [t0, t1, t2, t3] = tagPLTE then
+          match processPlte st data with
+          | .ok st' => walk fuel rest st'
+          | .err e => .err e
+          | .panic => .panic
+        else if [t0, t1, t2, t3] = tagIDAT then walk fuel rest { st with idat := st.idat ++ [data] }
+        else if [t0, t1, t2, t3] = tagTRNS then walk fuel rest (processTrns st data)
+        else if [t0, t1, t2, t3] = tagIEND then .ok st
+        else walk fuel rest st) := by
+  show walkBody (walk fuel) _ st = _
+  unfold walkBody
+  have h1 : be32At (data.length / 16777216 % 256 :: data.length / 65536 % 256 ::
+      data.length / 256 % 256 :: data.length % 256 :: t0 :: t1 :: t2 :: t3 ::
+        (data ++ c0 :: c1 :: c2 :: c3 :: rest)) 0 = data.length := be32At_cons _ hlen _
+  simp only [h1, List.isEmpty_cons, Bool.false_eq_true, if_false, List.length_cons,
+    List.drop_succ_cons, List.drop_zero, List.take_succ_cons, List.take_zero,
+    List.length_append]
+  rw [if_neg (by omega), if_neg (by omega)]
+  have h2 : (data ++ c0 :: c1 :: c2 :: c3 :: rest).take data.length = data := by
+    simp
+  have h3 : (data ++ c0 :: c1 :: c2 :: c3 :: rest).drop (data.length + 4) = rest := by
+    rw [← List.drop_drop]
+    simp
+  rw [h2, h3]
+  rfl
+
+theorem chunk_unfold (tag : String) (data rest : List Nat) :
+    chunk tag data ++ rest =
+      be32 data.length ++ (tagOf tag ++ (data ++ (be32 (crc32 (tagOf tag ++ data)) ++ rest))) := by
+  simp [chunk, List.append_assoc]
+
+theorem walk_IHDR (fuel : Nat) (data rest : List Nat) (st : Decoder) (hlen : data.length < 4294967296) :
+    walk (fuel + 1) (chunk "IHDR" data ++ rest) st =
+      (match processIhdr st data with
+       | .ok st' => walk fuel rest st'
+       | .err e => .err e
+       | .panic => .panic) := by
+  rw [chunk_unfold]
+  have ht : tagOf "IHDR" = [73, 72, 68, 82] := by decide
+  rw [ht]
+  simp only [be32, List.cons_append, List.nil_append]
+  rw [walk_step fuel _ _ _ _ _ _ _ _ data rest st hlen]
+  simp [tagIHDR]
+
+theorem walk_IDAT (fuel : Nat) (data rest : List Nat) (st : Decoder) (hlen : data.length < 4294967296) :
+    walk (fuel + 1) (chunk "IDAT" data ++ rest) st =
+      walk fuel rest { st with idat := st.idat ++ [data] } := by
+  rw [chunk_unfold]
+  have ht : tagOf "IDAT" = [73, 68, 65, 84] := by decide
+  rw [ht]
+  simp only [be32, List.cons_append, List.nil_append]
+  rw [walk_step fuel _ _ _ _ _ _ _ _ data rest st hlen]
+  simp [tagIHDR, tagPLTE, tagIDAT]
+
+theorem walk_IEND (fuel : Nat) (rest : List Nat) (st : Decoder) :
+    walk (fuel + 1) (chunk "IEND" [] ++ rest) st = .ok st := by
+  rw [chunk_unfold]
+  have ht : tagOf "IEND" = [73, 69, 78, 68] := by decide
+  rw [ht]
+  simp only [be32, List.cons_append, List.nil_append]
+  have := walk_step fuel 73 69 78 68 (crc32 [73, 69, 78, 68] / 16777216 % 256)
+    (crc32 [73, 69, 78, 68] / 65536 % 256) (crc32 [73, 69, 78, 68] / 256 % 256)
+    (crc32 [73, 69, 78, 68] % 256) [] rest st (by simp)
+  simpa [tagIHDR, tagPLTE, tagIDAT, tagTRNS, tagIEND] using this
+
+/-- any number of IDAT chunks: the payloads are collected in order -/
+theorem walk_IDATs (zs : List (List Nat)) :
+    ∀ (fuel : Nat) (rest : List Nat) (st : Decoder), (∀ z ∈ zs, z.length < 4294967296) →
+      walk (fuel + zs.length) ((zs.map (chunk "IDAT")).flatten ++ rest) st =
+        walk fuel rest { st with idat := st.idat ++ zs } := by
+  induction zs with
+  | nil => intro fuel rest st _; simp
+  | cons z zs ih =>
+    intro fuel rest st h
+    have hz := h z (by simp)
+    simp only [List.map_cons, List.flatten_cons, List.length_cons, List.append_assoc]
+    rw [show fuel + (zs.length + 1) = (fuel + zs.length) + 1 by omega, walk_IDAT _ _ _ _ hz,
+      ih fuel rest _ (fun y hy => h y (by simp [hy]))]
+    simp [List.append_assoc]
+
+
+theorem idat_chunks_length (zs : List (List Nat)) :
+    zs.length ≤ ((zs.map (chunk "IDAT")).flatten).length := by
+  induction zs with
+  | nil => simp
+  | cons z zs ih =>
+    simp only [List.map_cons, List.flatten_cons, List.length_append, List.length_cons]
+    have : 1 ≤ (chunk "IDAT" z).length := by simp [chunk, be32]
+    omega
+
+/-- `process_ihdr` on a 13-byte IHDR with compression/filter/interlace 0 -/
+theorem processIhdr_ok (st : Decoder) (w h depth ctb : Nat) (ct : ColorType)
+    (hw : w < 4294967296) (hh : h < 4294967296) (hct : ColorType.fromByte ctb = some ct) :
+    processIhdr st (be32 w ++ be32 h ++ [depth, ctb, 0, 0, 0]) =
+      .ok { st with width := w, height := h, bitDepth := depth, colorType := ct, hasIhdr := true } := by
+  unfold processIhdr
+  simp only [be32, List.cons_append, List.nil_append]
+  simp [hct, be32At]
+  constructor <;> omega
+
+end OxiVerif.C24
